@@ -303,12 +303,14 @@ def rule_g(ctx: Ctx, rule: str = 'C03.g') -> None:
         n += 1
         ok = bool(defs) and all(d.ast is not None and isinstance(d.ast, ast.Assign) and 'copy(' in text(d.ast.value) for d in defs)
         if not ok:
-            # a wildcard parsed locally for this group (`self.builders.any_attribute_class(child, …)`) is owned by the group as well
-            ok = bool(defs) and all(d.ast is not None and isinstance(d.ast, (ast.Assign, ast.For)) and
-                                    ('copy(' in text(getattr(d.ast, 'value', d.ast)) or 'any_attribute_class(' in text(getattr(d.ast, 'value', d.ast))
-                                     or isinstance(d.ast, ast.For)) for d in defs)
+            # a wildcard parsed locally for this group (`self.builders.any_attribute_class(child, …)`) is owned by the group as well;
+            # a loop variable over `attributes` is NOT: the mapping also holds the wildcard objects of referenced groups
+            ok = bool(defs) and all(d.ast is not None and isinstance(d.ast, ast.Assign) and
+                                    ('copy(' in text(d.ast.value) or 'any_attribute_class(' in text(d.ast.value)) for d in defs)
         ctx.ob(rule, f'XsdAttributeGroup._parse: `{text(c)[:40]}` is applied to a wildcard this group owns (a copy or a locally parsed one)', f.loc(c), ok,
-               '', key=f'attributes._parse|{c.func.attr}|{recv}')
+               '' if ok else f'`{recv}` may be the wildcard object of a referenced attribute group (the mapping it is taken from stores those objects as they are): '
+               'the in-place update changes that group for every other user - which instances validate then depends on the order the types are built in',
+               key=f'attributes._parse|{c.func.attr}|{recv}')
     ctx.floor(rule, 'wildcard combination sites in XsdAttributeGroup._parse', n, 2)
     ctx.explain(f'{rule}: the namespace-constraint sets that intersection()/union() mutate in place are re-created by XsdWildcard.__copy__, '
                 'and the attribute-group parser combines only wildcards it owns.')
